@@ -14,7 +14,7 @@ ANCHORS = ['numdifftools.limits:Limit._lim', 'numdifftools.limits:Limit._call_li
            'numdifftools.limits:_Limit._extrapolate', 'numdifftools.limits:_Limit._get_best_estimate',
            'numdifftools.limits:CStepGenerator.step_ratio']
 MIN_COUNTERS = dict(quick={'limit_values_asserted': 1500, 'residue_values_asserted': 400, 'regular_points_asserted': 300,
-                           'array_cases': 300, 'multidimensional_array_cases': 60, 'complex_z0_cases': 400, 'spiral_cases': 400, 'side_asserted': 600,
+                           'array_cases': 300, 'two_point_limit_values_asserted': 150, 'multidimensional_array_cases': 60, 'complex_z0_cases': 400, 'spiral_cases': 400, 'side_asserted': 600,
                            'method:above': 500, 'method:below': 500},
                     thorough={'limit_values_asserted': 60000})
 RULE = ('Arrays of 1 to 3 dimensions with the singular entries anywhere; step ratios also as Python ints. ' 
@@ -214,10 +214,17 @@ def run_case(case, ctx):
     # ---- Limit
     s = s_fun(kernel)
 
+    size = case['size']
+    # two different singular points in one array (their limits differ): f(z) = g(z) s((z - z0)(z - z1)), entire kernels only
+    two = bool(size >= 3 and kernel in ('sinc', 'expm1', 'sinc_half_sq') and case['seed'] % 3 != 0)
+    z1 = z0 + 0.53717 * ((1 + 0.5j) if isinstance(z0, complex) else 1)
+
     def f(z):
+        if two:
+            return g(z) * s((z - z0) * (z - z1))
         return g(z) * s(z - z0)
     rec = Recorder(f, keep_values=True)
-    size = case['size']
+    centres = np.array([z0])
     if size:
         ctx.count('array_cases')
         zs = np.array([z0] * size, dtype=complex if isinstance(z0, complex) else float)
@@ -225,6 +232,15 @@ def run_case(case, ctx):
         regular[int(rng.integers(0, size))] = False          # at least one singular entry, anywhere
         offs = rng.uniform(0.05, 0.2, size=size) * (1 if method == 'above' else -1)
         zs = np.where(regular, zs + offs, zs)
+        if two:
+            ia, ib = [int(v) for v in rng.choice(size, size=2, replace=False)]
+            regular[ia] = regular[ib] = False
+            zs[ia], zs[ib] = z0, z1
+            second = rng.random(size) < 0.5
+            second[ia], second[ib] = False, True
+            zs = np.where(~regular & second, z1, zs)
+            ctx.count('arrays_with_two_different_singular_points')
+        centres = zs[~regular]
         zin = zs
         shapes = {4: [(2, 2)], 6: [(2, 3), (3, 2)], 8: [(2, 4), (4, 2), (2, 2, 2)], 9: [(3, 3)]}.get(size)
         if shapes and rng.random() < 0.7:
@@ -258,7 +274,10 @@ def run_case(case, ctx):
     pts = []
     for c in rec.calls[1:] if not (case['use_limit_method'] and not size) else rec.calls:
         pts.append(np.asarray(c.z1).ravel())
-    offsets = np.concatenate([p_ - z0 for p_ in pts]) if pts else np.array([])
+    if two and any(p_.size != centres.size for p_ in pts):
+        ctx.count('skipped_two_point_array_evaluated_in_another_shape')
+        pts = []
+    offsets = np.concatenate([p_ - (centres if two else z0) for p_ in pts]) if pts else np.array([])
     if kernel in SING_DIST and offsets.size and np.max(np.abs(offsets)) * 4 > SING_DIST[kernel]:
         ctx.count('skipped_steps_too_close_to_kernel_singularity')
         return
@@ -291,6 +310,9 @@ def run_case(case, ctx):
                 return
             continue
         ctx.count('limit_values_asserted')
+        if two:
+            gz0 = complex(g(zs[k]))
+            ctx.count('two_point_limit_values_asserted')
         bound = K_EST * est[k if est.size > 1 else 0] + 1e-10 * abs(gz0)
         err = abs(complex(val[k]) - gz0)
         if not np.isfinite(err):
